@@ -123,6 +123,7 @@ pub fn cases() -> Vec<Pair> {
         ("text", c("g").eq("it's"), "\"g\" = 'it''s'"),
         ("text crlf", c("g").ne("first\r\nsecond\ttab"), "\"g\" <> 'first\r\nsecond\ttab'"),
         ("text value", Expr::val("a\r\nb\tc'd\\e").into(), "'a\r\nb\tc''d\\e'"),
+        ("text value plain specials", Expr::val("say \"hi\"\r\n\tend").into(), "'say \"hi\"\r\n\tend'"),
         ("text backslash", c("g").ne("a\\b'c"), "\"g\" <> 'a\\b''c'"),
         ("bytes", Expr::val(vec![0u8, 0x0a, 0x10, 0xff, 0x07]).into(), "x'000A10FF07'"),
         ("bytes compare", Expr::val(vec![0x0au8, 0x01]).lt(Expr::val(vec![0x0au8, 0x10])), "x'0A01' < x'0A10'"),
